@@ -344,6 +344,10 @@ def run(res, tier):
     determinism(res, tier)
     cli_roundtrip(res, tier)
     same_path_reread(res)
+    # a file can only be reproduced from its embedded settings if they are the settings the grid was made with
+    from props.c12 import inconsistent_options
+
+    inconsistent_options(res, tag="embedded-settings-not-those-used")
 
 
 def replay(rep):
